@@ -81,7 +81,8 @@ int main(int argc, char** argv) {
     { ZonedDateTime d = z; d.hour(v); zoned_date_time_mutation::incrementHour(d); if (d.hour() > 23) violation("c17:incrementHour-range", fmt("{\"from\":%d,\"to\":%d}", v, d.hour())); if (v < 24 && d.hour() != (v + 1) % 24) violation("c17:incrementHour-step", fmt("{\"from\":%d}", v)); }
     { ZonedDateTime d = z; d.minute(v); zoned_date_time_mutation::incrementMinute(d); if (d.minute() > 59) violation("c17:incrementMinute-range", fmt("{\"from\":%d,\"to\":%d}", v, d.minute())); if (v < 60 && d.minute() != (v + 1) % 60) violation("c17:incrementMinute-step", fmt("{\"from\":%d}", v)); }
     { TimePeriod p(v, 0, 0); time_period_mutation::incrementHour(p); if (p.hour() > 23) violation("c17:period-incrementHour-range", fmt("{\"from\":%d,\"to\":%d}", v, p.hour())); if (v < 24 && p.hour() != (v + 1) % 24) violation("c17:period-incrementHour-step", fmt("{\"from\":%d}", v));
-      for (int lim : {1, 2, 12, 24, 100, 255}) { TimePeriod q(v, 0, 0); time_period_mutation::incrementHour(q, lim); if (q.hour() >= lim) violation("c17:period-incrementHour-limit", fmt("{\"from\":%d,\"limit\":%d,\"to\":%d}", v, lim, q.hour())); } }
+      for (int lim : {1, 2, 12, 24, 100, 255}) { TimePeriod q(v, 0, 0); time_period_mutation::incrementHour(q, lim); if (q.hour() >= lim) violation("c17:period-incrementHour-limit", fmt("{\"from\":%d,\"limit\":%d,\"to\":%d}", v, lim, q.hour()));
+        if (v < lim && q.hour() != (v + 1) % lim) violation("c17:period-incrementHour-limit-step", fmt("{\"from\":%d,\"limit\":%d,\"to\":%d}", v, lim, q.hour())); } }
     { TimePeriod p(0, v, 0); time_period_mutation::incrementMinute(p); if (p.minute() > 59) violation("c17:period-incrementMinute-range", fmt("{\"from\":%d,\"to\":%d}", v, p.minute())); if (v < 60 && p.minute() != (v + 1) % 60) violation("c17:period-incrementMinute-step", fmt("{\"from\":%d}", v)); }
     c.add("increment_helper_inputs", 13);
   }
